@@ -36,7 +36,9 @@ var solvers = []solverSpec{
 		return []string{fmt.Sprintf("-T:%d", t), "smt.mbqi=false", "smt.auto_config=false", f}
 	}, "z3"},
 	{"cvc5", func(f string, t int) []string {
-		return []string{fmt.Sprintf("--tlimit=%d", t*1000), "--produce-models", f}
+		// without model production: cvc5 is an order of magnitude slower on quantified
+		// goals when it has to be able to build a model (counter-models come from z3)
+		return []string{fmt.Sprintf("--tlimit=%d", t*1000), strings.TrimSuffix(f, ".smt2") + ".nm.smt2"}
 	}, "cvc5"},
 }
 
@@ -73,6 +75,31 @@ func runOne(ctx context.Context, sp solverSpec, file string, timeoutS int) (verd
 	return
 }
 
+// SolveProbe decides a vacuity probe (expected NOT to be refutable): the solvers
+// run one after the other with a short budget, so that the many probes do not
+// compete with the real obligations for the cores.
+func SolveProbe(script string, dir, name string, timeoutS int) SolverResult {
+	os.MkdirAll(dir, 0o755)
+	file := filepath.Join(dir, name+".smt2")
+	full := "(set-logic ALL)\n" + script + "\n(check-sat)\n"
+	if err := os.WriteFile(file, []byte(full), 0o644); err != nil {
+		return SolverResult{Verdict: "error", Raw: map[string]string{"io": err.Error()}}
+	}
+	os.WriteFile(strings.TrimSuffix(file, ".smt2")+".nm.smt2", []byte(full), 0o644)
+	res := SolverResult{Raw: map[string]string{}, Verdict: "unknown"}
+	t0 := time.Now()
+	for _, sp := range []solverSpec{solvers[0], solvers[2]} {
+		v, _, dt := runOne(context.Background(), sp, file, timeoutS)
+		res.Raw[sp.name] = fmt.Sprintf("%s (%.2fs)", v, dt)
+		if v == "unsat" || v == "sat" {
+			res.Verdict, res.Solver = v, sp.name
+			break
+		}
+	}
+	res.TimeS = time.Since(t0).Seconds()
+	return res
+}
+
 // Solve races the portfolio on an SMT-LIB script (without check-sat/get-model,
 // which are appended here). z3-new gets a head start; the others join if it has
 // not answered definitively within headStart.
@@ -83,6 +110,7 @@ func Solve(script string, dir, name string, timeoutS int, confirm bool) SolverRe
 	if err := os.WriteFile(file, []byte(full), 0o644); err != nil {
 		return SolverResult{Verdict: "error", Raw: map[string]string{"io": err.Error()}}
 	}
+	os.WriteFile(strings.TrimSuffix(file, ".smt2")+".nm.smt2", []byte("(set-logic ALL)\n"+script+"\n(check-sat)\n"), 0o644)
 	res := SolverResult{Raw: map[string]string{}, Verdict: "unknown"}
 	ctx, cancel := context.WithCancel(context.Background())
 	defer cancel()
